@@ -983,6 +983,11 @@ func redoCode(c *types.ChangeLog, processor types.ChangeLogProcessor) error {
 func undoCode(c *types.ChangeLog, processor types.ChangeLogProcessor) error {
 	accessor := processor.GetAccount(c.Address)
 	accessor.SetCode(nil)
+	// SetCode(nil) leaves the hash of empty code behind. Code is only set on new contracts, which have no code hash at all. Put that back, or a node which
+	// reverted a creation stores another account record than the nodes which never executed it
+	if accessor.GetCodeHash() == common.Sha3Nil {
+		accessor.SetCodeHash(common.Hash{})
+	}
 	return nil
 }
 
